@@ -180,13 +180,20 @@ class Runner:
         try:
             with open(rr["log"], errors="replace") as fh:
                 text = fh.read()
-            m = re.search(r"```\n(.*?)```", text, re.S)
-            if m:
-                test_src = m.group(1)
-            else:
-                m = re.search(r"(/// Test generated for harness.*?\n}\n)", text, re.S)
-                if m:
-                    test_src = m.group(1)
+            blocks = re.findall(r"```\n(.*?)```", text, re.S)
+            # Kani emits one test per failed check and per satisfied cover; keep those of failed checks
+            keep = [b for b in blocks if not re.search(r"Check for `cover`", b)]
+            if not keep:
+                keep = blocks
+            # distinct tests only
+            seen, uniq = set(), []
+            for b in keep:
+                m = re.search(r"fn (kani_concrete_playback_\w+)", b)
+                if m and m.group(1) not in seen:
+                    seen.add(m.group(1))
+                    uniq.append(b)
+            if uniq:
+                test_src = "\n".join(uniq)
         except Exception:
             pass
         if not test_src:
@@ -206,10 +213,13 @@ class Runner:
         m = re.search(r"fn (kani_concrete_playback_\w+)", test_src)
         if not m:
             return rdir, None
-        tname = m.group(1)
+        # all generated tests share this prefix; the run reproduces if any of them fails natively
+        tname = "kani_concrete_playback_" + h.fn
         hfile = os.path.join(v["vh"], os.path.relpath(h.file, meta.HARNESS_DIR))
         with open(hfile, "a") as fh:
-            fh.write("\n" + test_src + "\n")
+            # the crate is no_std: bring the std prelude items the generated test uses into scope
+            fh.write("\n#[cfg(test)]\nmod kani_playback_generated {\n    #![allow(unused_imports)]\n    use super::*;\n    extern crate std;\n    use std::vec;\n    use std::vec::Vec;\n"
+                     + test_src + "\n}\n")
         outcome = {}
         for prof in ("dev", "release"):
             cmd = ["cargo", "kani", "playback", "-Z", "concrete-playback", "-p", "statime"]
